@@ -181,6 +181,22 @@ func c30Mutations() []c30Mutation {
 		alter("chunk-signature-first", "sig", false), alter("chunk-signature-final", "sig", true),
 		sizeDelta("chunk-size-plus-1", 1, false), sizeDelta("chunk-size-minus-1", -1, false), sizeDelta("final-chunk-size-1", 1, true),
 		alter("trailer-checksum", "tvalue", false), alter("trailer-signature", "tsig", false),
+		{"trailer-checksum-letter-case", func(ps []c30Piece) ([]c30Piece, bool) {
+			// base64 is case sensitive: the same letters in another case are another checksum
+			d := c30Find(ps, "tvalue")
+			if len(d) == 0 {
+				return nil, false
+			}
+			out := c30Clone(ps)
+			t := out[d[0]].Text
+			for i, c := range t {
+				if c >= 'a' && c <= 'z' || c >= 'A' && c <= 'Z' {
+					t[i] = c ^ 0x20
+					return out, true
+				}
+			}
+			return nil, false
+		}},
 		alterMid("chunk-signature-first-middle-digit", "sig", false), alterMid("chunk-signature-final-middle-digit", "sig", true), alterMid("trailer-signature-middle-digit", "tsig", false),
 		{"trailer-removed", func(ps []c30Piece) ([]c30Piece, bool) {
 			d := c30Find(ps, "tname")
@@ -655,7 +671,7 @@ func TestC30(t *testing.T) {
 	run.Cov["evaluations"] = evaluations
 	run.Cov["distinct_nontrivial"] = len(distinct)
 	run.Cov["rule"] = "baselines = {auth-on signed, anonymous, auth-off signed, auth-off plain} x {HMAC-signed chunks, HMAC-signed chunks+trailer x 5 checksum algorithms, ECDSA(SigV4a)-signed chunks, ECDSA-signed chunks+trailer x {crc32, sha256} (thorough: x 5), unsigned chunks+trailer x 5} (anonymous: unsigned only) x payload sizes {0,1,10,8192,65537} (thorough: also 2,100,16384) x chunk schedules {one chunk, 5+rest, all 1-byte, 8 KiB, mixed} x {key new, key has previous content}; " +
-		"every baseline of the mutation subset x the catalogue of c30Mutations (payload byte first/middle/last, chunk signature first/final (first digit and middle digit), chunk size +1/-1, final chunk size 1, trailer checksum, trailer signature, trailer removed / other algorithm, missing final chunk, cut at chunk boundary, cut mid chunk, extra chunk, extra bytes after end, garbage body, empty body). " +
+		"every baseline of the mutation subset x the catalogue of c30Mutations (payload byte first/middle/last, chunk signature first/final (first digit and middle digit), chunk size +1/-1, final chunk size 1, trailer checksum (other value; same letters in the other case), trailer signature, trailer removed / other algorithm, missing final chunk, cut at chunk boundary, cut mid chunk, extra chunk, extra bytes after end, garbage body, empty body). " +
 		"Each case = PUT through server.SetupServer then GET; judged by the harness' reference decoder. Non-trivial = everything but the empty payload without trailer; distinct = distinct case tuples"
 	run.Cov["baseline_groups"] = len(groups)
 	run.Cov["outcomes"] = hist
